@@ -208,11 +208,11 @@ Lemma dm_run_mixture : forall (c : circ X) s0 cbarg h,
   wf X (c_ncb X c) (c_ops X c) = true -> valid_arg h cbarg ->
   dm_safe X (c_ops X c) = true ->
   dm_clear X (c_ops X c) (init_cbits (c_ncb X c) (arg_val h cbarg)) (dm_of X s0) = true ->
-  exists h' ref, dm_run X false c (dm_of X s0) cbarg h
+  exists h' ref, dm_run_orig X false c (dm_of X s0) cbarg h
                  = Ok (h', (mixture X (c_ops X c) s0 (init_cbits (c_ncb X c) (arg_val h cbarg)), fI, ref))
                  /\ untouched h h'.
 Proof.
-  intros c s0 cbarg h Hwf V Hsafe Hcl. unfold dm_run.
+  intros c s0 cbarg h Hwf V Hsafe Hcl. unfold dm_run_orig.
   set (cb0 := init_cbits (c_ncb X c) (arg_val h cbarg)) in *.
   assert (Hlen0 : length cb0 = c_ncb X c) by apply init_cbits_length.
   assert (E1 : dm_of X s0 = mix [s0]) by (unfold mix, dsum; cbn [map fold_right]; symmetry; apply dadd_0r).
